@@ -13,7 +13,7 @@ use super::rng::Rng;
 // Profiles: which workload / fault mix a run uses (swarm configuration)
 // ---------------------------------------------------------------------------
 
-pub const PROFILES: [&str; 16] = [
+pub const PROFILES: [&str; 17] = [
     "plain",      // fault-free payments, 1-3 hashes
     "faults",     // crashes, write faults, reorder, delayed replies, bad pay outcomes
     "crashy",     // many crashes around the pay call
@@ -30,6 +30,7 @@ pub const PROFILES: [&str; 16] = [
     "e2pay",      // E2: PayPaymentProvider::pay
     "e2watch",    // E2: BlockWatcher
     "e2wait-hostile",
+    "e2pay-hostile",
 ];
 
 pub fn profile_cfg(profile: &str, content: &mut Rng) -> RunCfg {
@@ -174,7 +175,11 @@ pub fn profile_cfg(profile: &str, content: &mut Rng) -> RunCfg {
                 c.f_rpc_read_fault = 60;
             }
         }
-        "e2pay" => {
+        "e2pay" | "e2pay-hostile" => {
+            if profile == "e2pay-hostile" {
+                c.f_hostile_waitsendpay = 200;
+                c.f_rpc_read_fault = 60;
+            }
             c.mode = "pay".into();
             c.max_sets = 0;
             let n = content.below(4) as usize;
@@ -378,8 +383,14 @@ impl RandomSched {
             }
             Method::Pay => {
                 if self.rng.permille(c.f_pay_bad_outcome / 4) {
-                    // the command never started
-                    return RpcFault::Transport;
+                    // the command never started: socket error, or rejected up
+                    // front (expired invoice 207, no route 205, ...)
+                    return match self.rng.below(4) {
+                        0 => RpcFault::Transport,
+                        1 => RpcFault::Code(207),
+                        2 => RpcFault::Code(205),
+                        _ => RpcFault::Code(201),
+                    };
                 }
             }
             Method::Getinfo => {
